@@ -218,7 +218,8 @@ theorem ssaOne_calls (fm : String) (info : KindInfo) (kind : String) (parentRef 
     · intro e
       split
       · exact .ret _
-      · refine AllCalls.mbind (AllCalls.request _ (Or.inr rfl)) ?_
+      · refine AllCalls.ite (fun _ => .ret _) (fun _ => ?_)
+        refine AllCalls.mbind (AllCalls.request _ (Or.inr rfl)) ?_
         intro r; split <;> exact .ret _
 
 theorem updateGroup_calls_ssa (mks sys : List String) (children : List ChildRes) (fm : String) (info : KindInfo) (kind : String)
